@@ -92,3 +92,45 @@ Example C01_refine_example :
                flat_i (mout (fst r)) = flat_s (wout cfF) /\ List.length (flat_s (wout cfF)) = 54%nat).
 Proof. exact refine_example. Qed.
 Print Assumptions C01_refine_example.
+
+(* ------------------------------------------------------------------------------------------------------------
+   The same refinement in the tokenizer's REAL default configuration (exact_errors = false, chunked BufferQueue, bulk
+   reads, SIMD scan; Inst/InstWhatwgDefault.v): the C01 observation [flat_i] factors through the observation [obs] of the
+   default-mode simulation (TokIR/BulkSim.v), and the fuel bound of C04 discharges its regularity hypothesis.  The
+   reference run is still the one that must only visit covered states (same _partial coverage as above); it is taken
+   with any fuel above fuel0 and returns normally by C04. *)
+From HV Require Import TokIR.Chunk TokIR.QueueSim Inst.InstBulk Inst.InstTermination Inst.InstWhatwgDefault.
+
+Theorem C01_default_mode_refines_whatwg_partial :
+  forall ent c1 sk env, e_script env = None ->
+  (forall n, lookup_resp n (sk_resp sk) <> Some RespScript) -> (forall n, lookup_resp n (sk_resp sk) <> Some RespEncoding) ->
+  (forall n, lookup_sw n (e_switches env) = sw_of_resp (lookup_resp n (sk_resp sk))) ->
+  forall s0 w last text fuel,
+  covered s0 = true -> wstate_of_start s0 = Some w ->
+  (html_fuel (length text) <= fuel)%nat -> (4 <= fuel)%nat ->
+  let fast := drive_chunked html_flavour false html_table html_simd ent c1 sk fuel [] [text]
+                (mkmach (init_cfg s0 last false) [] [] 0%N) [] in
+  let m1 := RecordUpdate.RecordSet.set mq (fun q => q ++ text) (mkmach (init_cfg s0 last false) ([] : list N) [] 0%N) in
+  (forall n m', iter html_flavour html_table html_simd ent c1 sk n m1 = Some m' -> cref (mc m') = None /\ covered (st (mc m')) = true) ->
+  exists fuel0, forall fuelr m2 m3, (fuel0 <= fuelr)%nat ->
+  feed [] fq_next fq_peek (@app N) (fun q => q) fq_run1 html_flavour true html_table html_simd ent c1 sk fuelr m1 = (m2, SSuspend) ->
+  tok_end [] fq_next fq_peek (@app N) (fun q => q) fq_run1 html_flavour true html_table html_simd ent c1 sk fuelr m2 = (m3, SSuspend) ->
+  snd fast = [SSuspend; SSuspend] /\
+  exists fs cfF, wrun fs env (winit w last) (preprocess text) = Some cfF /\ flat_i (mout (fst fast)) = flat_s (wout cfF).
+Proof. exact html_default_mode_refines_whatwg_partial. Qed.
+Print Assumptions C01_default_mode_refines_whatwg_partial.
+
+(* the C01 observation only depends on the simulation's observation *)
+Theorem C01_observation_factors_through_obs : forall a b, obs a = obs b -> flat_i a = flat_i b.
+Proof. exact obs_eq_flat_i. Qed.
+Print Assumptions C01_observation_factors_through_obs.
+
+(* non-vacuity (a test, by computation): the script-data text above in default mode, fuel exactly html_fuel |text| *)
+Example C01_default_mode_refine_example :
+  let fast := drive_chunked html_flavour false html_table html_simd html_ent html_c1 nosink (html_fuel (length rex_text)) [] [rex_text]
+                (mkmach (init_cfg (HRawData KScriptData) rex_last false) [] [] 0%N) [] in
+  snd fast = [SSuspend; SSuspend] /\
+  exists cfF, wrun 200 rex_env (winit WScriptData rex_last) (preprocess rex_text) = Some cfF /\
+              flat_i (mout (fst fast)) = flat_s (wout cfF) /\ List.length (flat_s (wout cfF)) = 54%nat.
+Proof. exact default_refine_example. Qed.
+Print Assumptions C01_default_mode_refine_example.
